@@ -94,9 +94,12 @@ def run_case(job):
                               for f in sorted(set(case["ord"]))) + " ; test " + " ".join(lay.nm(f) for f in case["ord"])}
     if problems or not same_view(ev, ov, args):
         res["ok"] = False
-        dv = expected_view(devcase["got"][0], lay) if devcase else None
-        explained = (not problems) and dv is not None and same_view(dv, ov, args) and devcase["fired"]
-        res["fired"] = sorted(devcase["fired"]) if explained else []
+        res["fired"] = []
+        for dc in (devcase or []):
+            dv = expected_view(dc["got"][0], lay)
+            if (not problems) and dc["fired"] and same_view(dv, ov, args):
+                res["fired"] = sorted(dc["fired"])
+                break
         res["report"] = {"project": {f: open(lay.abs_file(f)).read() for f in range(1, lay.nf + 1)},
                          "invocation": ["ucg", "test"] + [os.path.relpath(a, lay.cwd()) if os.path.isabs(a) else a for a in args],
                          "abstract": {k: case[k] for k in ("lay", "body", "cmd", "cwd", "ord")},
@@ -112,7 +115,7 @@ def nontrivial(case):
 
 def main(tier, replay=None):
     t0 = time.time()
-    rep = C.Reporter(PID)
+    rep = B.reporter(PID)
     ucg = C.ensure_ucg()
     sd = C.seed()
     gd = C.gen_dir("c13")
@@ -127,7 +130,7 @@ def main(tier, replay=None):
     cases = {}
     devcases = {}
     for cfg in cfgs:
-        r = B.run_config(gd, cfg)
+        r, r2 = B.run_design_and_deviations(gd, cfg, opendevs, timeout=3000)
         cmds.append(r.cmd)
         if r.violation:
             raise C.ToolError("Build.tla (%s, Deviations = {}): invariant %s violated -- the design itself breaks the "
@@ -138,17 +141,16 @@ def main(tier, replay=None):
         C.log("[c13] %s: %d states, %d runs, %.0fs" % (cfg, r.distinct, len(r.replays), r.wall))
         for c in r.replays:
             cases.setdefault(B.case_key(c), c)
-        if opendevs:
-            r2 = B.run_config(gd, cfg, deviations=opendevs, invariants="Emit")
+        if r2 is not None:
             C.require_tlc_ok(r2, cfg + " with deviations")
             cmds.append(r2.cmd)
             for c in r2.replays:
-                devcases.setdefault(B.case_key(c), c)
+                devcases.setdefault(B.case_key(c), []).append(c)
     if tier == "thorough":
         for c in simulate_cases(gd, sd, cmds):
             cases.setdefault(B.case_key(c[0]), c[0])
             if c[1] is not None:
-                devcases.setdefault(B.case_key(c[0]), c[1])
+                devcases.setdefault(B.case_key(c[0]), []).append(c[1])
     keys = sorted(cases)
     rng = random.Random(sd)
     rng.shuffle(keys)
@@ -156,6 +158,19 @@ def main(tier, replay=None):
     keys.sort(key=lambda k: 0 if nontrivial(cases[k]) else 1)
     chosen = keys[:budget]
     jobs = [(i, cases[k], devcases.get(k), ucg, base, sd) for i, k in enumerate(chosen)]
+    cnt = {"verdict Pass": 0, "verdict Fail": 0, "build error": 0, "malformed assertion": 0, "error after assertions": 0,
+           "file tested twice": 0, "three files": 0}
+    for k in chosen:
+        c = cases[k]
+        for e in c["expect"][0]["files"]:
+            cnt["verdict Pass"] += e["okay"] and e["pass"]
+            cnt["verdict Fail"] += e["okay"] and not e["pass"]
+            cnt["build error"] += not e["okay"]
+        cnt["malformed assertion"] += any(s["r"] == "mal" for b in c["body"] for s in b)
+        cnt["error after assertions"] += any(b and b[-1]["k"] in ("rterr", "tyerr") and len(b) > 1 for b in c["body"])
+        cnt["file tested twice"] += len(set(c["ord"])) < len(c["ord"])
+        cnt["three files"] += len(set(c["ord"])) == 3
+    B.require_nonvacuous("c13", cnt)
     results = B.pool_map(run_case, jobs, workers=8)
     runs_for_trace = {}
     nontriv = set()
